@@ -671,6 +671,7 @@ func (rn *vRunner) run(lim vLimits) *vResult {
 
 	for {
 		time.Sleep(2 * time.Millisecond)
+		rn.m.reassertPriorities()
 		o := rn.observe()
 		last = o
 		now := time.Now()
